@@ -143,7 +143,7 @@ Qed.
 (** the sqlstate attribute wins over args; sqlstate_classifier falls back to default_classifier,
     pyodbc_classifier to UNKNOWN *)
 Lemma sqlstate_attribute_first search e :
-  truthy (e_sqlstate e) = true -> sqlstate_text search e = Some (pv_text (e_sqlstate e)).
+  truthy (e_sqlstate e) = true -> sqlstate_text search e = Some (py_str (e_sqlstate e)).
 Proof. unfold sqlstate_text. intros ->. reflexivity. Qed.
 
 Lemma sqlstate_fallbacks e :
@@ -185,4 +185,20 @@ Lemma classifiers_total e :
 Proof.
   assert (A: forall k, In k all_klasses) by (intros []; simpl; tauto).
   repeat split; apply A.
+Qed.
+
+(** an int sqlstate beyond the interpreter's int-to-str digit limit is not a SQLSTATE: both classifiers answer UNKNOWN
+    (on the pinned tree they raised ValueError; see known-findings.txt, fixed: property=C19) *)
+Lemma str_limit_pos : 0 < str_limit.
+Proof. unfold str_limit. apply Z.pow_pos_nonneg; lia. Qed.
+Lemma huge_int_sqlstate_unknown e z t :
+  e_sqlstate e = {| pv_kind := VInt z; pv_text := t |} -> str_limit <= Z.abs z ->
+  sqlstate_classifier e = UNKNOWN /\ pyodbc_classifier e = UNKNOWN.
+Proof.
+  intros E H. pose proof str_limit_pos as P.
+  assert (T: truthy (e_sqlstate e) = true).
+  { rewrite E. unfold truthy. cbn [pv_kind]. destruct (Z.eqb_spec z 0) as [->|]; [simpl in H; lia|reflexivity]. }
+  assert (R: py_str (e_sqlstate e) = []).
+  { unfold py_str, str_refused. rewrite E. cbn [pv_kind]. destruct (Z.leb_spec str_limit (Z.abs z)); [reflexivity|lia]. }
+  unfold sqlstate_classifier, pyodbc_classifier, sqlstate_text. rewrite T, R. split; reflexivity.
 Qed.
